@@ -60,7 +60,7 @@ func drawStep(t *rapid.T, c *hx.Case, now uint64, bl, iv uint32) uint64 {
 // TestWindowReference drives a BucketLeapArray and every valid derived view with a generated
 // history and compares every getter with the aligned-window reference after every step.
 func TestWindowReference(t *testing.T) {
-	hx.Check(t, hx.N{Quick: 4000, Thorough: 40000}, func(t *rapid.T, c *hx.Case) {
+	hx.Check(t, hx.N{Quick: 24000, Thorough: 400000}, func(t *rapid.T, c *hx.Case) {
 		n := uint32(rapid.IntRange(1, 20).Draw(t, "n"))
 		bl := uint32(rapid.SampledFrom([]int{1, 2, 5, 10, 100, 500, 1000}).Draw(t, "bl"))
 		iv := n * bl
@@ -327,7 +327,7 @@ func indices(n int) []int {
 
 // TestViewConstructible: a window view is constructible iff it tiles the underlying buckets.
 func TestViewConstructible(t *testing.T) {
-	hx.Check(t, hx.N{Quick: 3000, Thorough: 20000}, func(t *rapid.T, c *hx.Case) {
+	hx.Check(t, hx.N{Quick: 18000, Thorough: 200000}, func(t *rapid.T, c *hx.Case) {
 		n := uint32(rapid.IntRange(1, 24).Draw(t, "n"))
 		bl := uint32(rapid.IntRange(1, 1200).Draw(t, "bl"))
 		iv := n * bl
@@ -389,7 +389,7 @@ func divisors(n uint32) []uint32 {
 // TestNodeGetters: the same reference through stat.ResourceNode under generated valid global
 // statistic configurations.
 func TestNodeGetters(t *testing.T) {
-	hx.Check(t, hx.N{Quick: 2000, Thorough: 20000}, func(t *rapid.T, c *hx.Case) {
+	hx.Check(t, hx.N{Quick: 12000, Thorough: 200000}, func(t *rapid.T, c *hx.Case) {
 		type geo struct{ gn, gi, mn, mi uint32 }
 		geos := []geo{{20, 10000, 2, 1000}, {10, 10000, 1, 1000}, {20, 10000, 10, 5000}, {4, 2000, 2, 1000}, {10, 1000, 5, 500}, {6, 3000, 3, 3000}, {1, 1000, 1, 1000}, {20, 10000, 20, 10000}}
 		g := geos[rapid.IntRange(0, len(geos)-1).Draw(t, "geo")]
